@@ -84,6 +84,7 @@ func printerReplay(args []string) {
 	fs.Parse(args)
 	installHook(*hook)
 	rep := lib.NewReport(*prop, "printer-replay")
+	defer installPoolMonitor(rep)()
 	lib.Parallel(runtime.NumCPU(), func(emit func([]byte)) {
 		_ = lib.TLCLines(os.Stdin, func(raw []byte) { emit(append([]byte(nil), raw...)) })
 	}, func(raw []byte) {
